@@ -249,7 +249,7 @@ static void finish_path(State &s, const char *why)
   if (SAMPLES.size() < OPT.samples || (ST.completed % 97 == 0 && SAMPLES.size() < OPT.samples * 4))
   {
     std::shared_ptr<z3::model> m = s.model;
-    if (!m && !s.pc.empty()) solve(s, nullptr, &m);
+    if (!m && !s.pc.empty()) { try { solve(s, nullptr, &m); } catch (PathEnd &) {} }
     Sample sm;
     for (auto &in : s.inputs)
     {
@@ -636,6 +636,7 @@ static void write_json(const std::string &path, const std::string &entry, double
   o << "{\n";
   o << " \"entry\": \"" << jesc(entry) << "\",\n \"status\": " << status << ",\n";
   o << " \"paths\": " << ST.paths << ", \"completed\": " << ST.completed << ", \"infeasible\": " << ST.infeasible << ", \"abandoned_fp\": " << ST.abandoned << ",\n";
+  o << " \"solver_unknown_paths\": " << ST.unknown_paths << ",\n";
   o << " \"render_classes\": " << OPT.render_classes << ", \"pruned_render_classes\": " << ST.pruned_render << ",\n";
   o << " \"forks\": " << ST.forks << ", \"steps\": " << ST.steps << ", \"queries\": " << ST.queries << ", \"cache_hits\": " << ST.cache_hits << ", \"model_hits\": " << ST.model_hits << ",\n";
   o << " \"asserts_checked\": " << ST.asserts_checked << ", \"solver_s\": " << ST.solver_s << ", \"wall_s\": " << wall << ", \"peak_rss_kb\": " << ru.ru_maxrss << ", \"pending\": " << worklist.size() << ",\n";
@@ -686,6 +687,9 @@ int main(int argc, char **argv)
     else if (a == "--seed") OPT.seed = strtoull(next().c_str(), 0, 10);
     else if (a == "--uf-muldiv") OPT.uf_muldiv = true;
     else if (a == "--false-first") OPT.false_first = true;
+    else if (a == "--merge-ptrs") OPT.merge_ptrs = true;
+    else if (a == "--tolerate-unknown") OPT.tolerate_unknown = true;
+    else if (a == "--support-bits") OPT.support_bits = atoi(next().c_str());
     else if (a == "--render-classes") OPT.render_classes = atoi(next().c_str());
     else if (a == "--samples") OPT.samples = atoi(next().c_str());
     else if (a == "--max-violations") OPT.max_violations = atoi(next().c_str());
